@@ -238,4 +238,30 @@ ENTRIES["C02"]["text"] = ("[R] proofs (Props/C02, Props/C02b): COMPLETENESS — 
           "completeness, twin, no duplicates and equal answer-set sizes on the implementation's output at oracle-checked configurations.")
 ENTRIES["C02"]["note"] = ("No-duplicates and same-size are sampled (predicates), not theorems. Completeness is a theorem over the reals; an analytic branch "
           "lost to f64 rounding one ulp beyond a domain edge (acos argument > 1) is visible only to the run. Trusted: Lean kernel + 3 standard axioms.")
+ENTRIES["C04"]["text"] += (" Props/C04b: with IK completeness (C02b) 'previous comes back first' is now UNCONDITIONAL for previous joints that are "
+    "compliant, inside (-pi,pi) and non-singular (prev_first_unconditional); a trajectory point within pi of the previous answer is in "
+    "the answer list (target_mem) and is its head whenever it is strictly nearer than every other answer (track_step; the non-strict form "
+    "of that separation is necessary, sep_necessary), hence a trajectory satisfying it step by step is tracked exactly (track_trajectory).")
+ENTRIES["C04"]["note"] = ("The branch-separation premise of track_step (every other answer strictly farther from the previous joints) is a hypothesis "
+    "about the actual answer list; the run checks tracking on dense trajectories (predicate C04.track). Trusted base as for C01.")
+ENTRIES["C06"]["text"] += (" Props/C06b (with IK completeness): the tool point does not depend on joint 6; for every non-singular configuration the 5-DOF "
+    "solvers return a vector whose J1..J5 equal the originating ones modulo 2pi with J6 the caller's value and exactly the requested tool "
+    "point (inverse5_origin, inverse5dof_origin, inverseContinuing5dof_origin), and the originating vector itself when inside (-pi,pi) "
+    "(inverse5_roundtrip, inverse_dof5_roundtrip for robots declared 5-DOF).")
+ENTRIES["C06"]["note"] = "Tool-axis accuracy of the OTHER (non-originating) 5-DOF answers is decided by the sampled predicate C06.axis. Trusted base as for C01."
+ENTRIES["C08"]["text"] += (" Props/C08b: the superset clause for the 6-DOF inverse_continuing is now a theorem for any sorting weight — every compliant element of "
+    "the unconstrained answer (including a recovered singular candidate) is in the constrained answer (continuing_superset, by a "
+    "simulation of the two shift loops; generic form continuing_superset_generic), and conversely every constrained answer is compliant "
+    "(continuing_sandwich).")
+ENTRIES["C08"]["note"] = "Trusted base as for C01. (The converse inclusion is false in general and is not claimed: the constrained run may continue past a non-compliant recovered candidate.)"
+ENTRIES["C15"]["text"] = ("[R]/[G] proofs (Props/C15, C15b) for ALL SIX joints, any sign/offset convention: perturbing joint i rotates the whole flange pose about the "
+    "world axis a_i of that joint through the origin o_i of link i (perturb_joint, forward_perturb_joint); the angular part of column i is "
+    "EXACTLY sign_i * a_i for |eps| < pi; the linear part is ((E_i(eps s_i) - 1)(t - o_i))/eps, converges to sign_i * a_i x (t - o_i), and "
+    "for |eps| <= 1 differs from it by at most |eps| * |t - o_i| per component (jacobian_column_geometric_within_step: 'within the "
+    "differencing step' with the constant), a_i and o_i being read off the model's own link chain; torques are the transpose applied to "
+    "the wrench (virtual work), isometry and vector entry points extract the same 6-vector, J x is linear. Runs compare the whole matrix "
+    "with the model's finite differences and check on the implementation's matrix the geometric columns, J.velocities = twist for "
+    "cond < 1e4 through the three velocity entry points, and torques = J^T F.")
+ENTRIES["C15"]["note"] = ("The geometric clause is proved for the bare robot; for tool/base/frame stacks it follows from C09 (stack_forward) and is decided by the "
+    "sampled predicate C15.geometric on wrapped robots. try_inverse/SVD are nalgebra (oracle; only the residual is checked).")
 NOT_APPLICABLE = {}
